@@ -94,6 +94,65 @@ def gen_prog(rng, nvars, nops, queries=True, cfg="a1v1", raw_node=False):
     return "PROG " + cfg, lines
 
 
+def gen_prog_sparse(rng, nvars, queries=True, cfg="a1v1"):
+    """programs whose diagrams are SPARSE: a selector variable chooses between small terms over different,
+    overlapping subsets of the later variables (multiplexer / decision-list shapes), so that the two
+    children of a node have incomparable supports; then restrictions and dependency queries for every
+    variable.  Dense random functions (gen_prog) almost never have such nodes."""
+    lines = []
+    n = [0]
+
+    def emit(l):
+        lines.append(l)
+        if not l.startswith("q"):
+            n[0] += 1
+            return n[0] - 1
+        return None
+
+    var = [emit("var %d" % v) for v in range(nvars)]
+    neg = {}
+
+    def lit(v, pos):
+        if pos:
+            return var[v]
+        if v not in neg:
+            neg[v] = emit("not %d" % var[v])
+        return neg[v]
+
+    def term(vs):
+        op = rng.pick(["and", "and", "or", "xor"])
+        r = lit(vs[0], rng.chance(2, 3))
+        for v in vs[1:]:
+            r = emit("%s %d %d" % (op, r, lit(v, rng.chance(2, 3))))
+        return r
+
+    tops = []
+    for _ in range(1 + rng.below(3)):
+        order = rng.shuffle(range(nvars))
+        sel = min(order[:2])
+        rest = [v for v in range(nvars) if v != sel]
+        shared = rng.pick(rest)
+        others = [v for v in rest if v != shared]
+        a = [shared] + rng.shuffle(others)[: 1 + rng.below(2)]
+        b = [shared] + rng.shuffle(others)[: 1 + rng.below(2)]
+        f, g = term(sorted(a)), term(sorted(b))
+        x = emit("and %d %d" % (lit(sel, True), f))
+        y = emit("and %d %d" % (lit(sel, False), g))
+        tops.append(emit("or %d %d" % (x, y)))
+    if len(tops) > 1:
+        tops.append(emit("%s %d %d" % (rng.pick(BINOPS), tops[0], tops[1])))
+    for t in tops:
+        if queries:
+            emit("q deps %d" % t)
+        for v in range(nvars):
+            r = emit("restrict %d %d %d" % (t, v, rng.below(2)))
+            if queries and rng.chance(1, 2):
+                emit("q deps %d" % r)
+    if queries:
+        emit("q pimp %d %s" % (rng.below(nvars), " ".join(map(str, tops))))
+    return "PROG " + cfg, lines
+
+
 # ---------------------------------------------------------------- formulas / ADFs
 def gen_formula(rng, names, depth, selfname=None):
     if depth == 0 or rng.chance(1, 4):
@@ -105,9 +164,16 @@ def gen_formula(rng, names, depth, selfname=None):
         if selfname is not None and rng.chance(1, 4):
             return selfname
         return rng.pick(names)
-    k = rng.below(7)
+    k = rng.below(8)
     if k == 0:
         return "neg(%s)" % gen_formula(rng, names, depth - 1, selfname)
+    if k == 7:
+        # multiplexer over small terms with overlapping supports (sparse diagrams)
+        if len(names) < 4:
+            return "and(%s,%s)" % (rng.pick(names), rng.pick(names))
+        sel, shared, x, y = rng.shuffle(names)[:4]
+        o1, o2 = rng.pick(["and", "or", "xor"]), rng.pick(["and", "or", "xor"])
+        return "or(and(%s,%s(%s,%s)),and(neg(%s),%s(%s,%s)))" % (sel, o1, shared, x, sel, o2, shared, y)
     op = ["and", "or", "imp", "xor", "iff", "and", "or"][k]
     return "%s(%s,%s)" % (op, gen_formula(rng, names, depth - 1, selfname), gen_formula(rng, names, depth - 1, selfname))
 
